@@ -150,8 +150,8 @@ class Stub(Native):
     attribute values.  Rules use it instead of matching call *text* (`decoder.process`), so that the names of the variables that
     hold the collaborator do not matter."""
 
-    def __init__(self, label, methods=None, attrs=None, strict=False):
-        self.label, self.methods, self.attrs, self.strict = label, dict(methods or {}), dict(attrs or {}), strict
+    def __init__(self, label, methods=None, attrs=None, strict=False, chain=False):
+        self.label, self.methods, self.attrs, self.strict, self.chain = label, dict(methods or {}), dict(attrs or {}), strict, chain
 
     def __repr__(self):
         return 'Stub(%s)' % self.label
@@ -175,6 +175,8 @@ class Stub(Native):
         if self.strict:
             raise Raise('AttributeError', node, interp.where(node, frame))
         interp.event('stub-call', self.label, name)
+        if self.chain:
+            return self         # builder-style API (argparse): every call hands back an object of the same kind
         return Top('call:' + name)
 
 
@@ -1174,6 +1176,14 @@ class Interp(object):
             if isinstance(a, (list, tuple)):
                 return Deque(a)
             return Top('deque')
+        if qual.startswith('math.') and not kwargs and all(isinstance(a, (int, float)) and not isinstance(a, bool) for a in args):
+            import math as _math
+            f = getattr(_math, qual[5:], None)
+            if callable(f):
+                try:
+                    return f(*args)
+                except (ValueError, OverflowError, ZeroDivisionError, TypeError) as exc:
+                    raise Raise(type(exc).__name__, node, self.where(node, frame))
         if qual == 'itertools.count':
             st = args[0] if args else kwargs.get('start', 0)
             step = args[1] if len(args) > 1 else kwargs.get('step', 1)
@@ -1304,8 +1314,11 @@ class Interp(object):
                 return list(base.keys())
             if name == 'values':
                 return list(base.values())
-            if name == 'update' and isinstance(args[0], dict):
-                base.update(args[0])
+            if name == 'update' and (not args or isinstance(args[0], dict) or
+                                     (isinstance(args[0], (list, tuple)) and all(isinstance(x, tuple) and len(x) == 2 for x in args[0]))):
+                if args:
+                    base.update(args[0])
+                base.update(kwargs)
                 return None
             if name == 'clear':
                 base.clear()
